@@ -255,6 +255,24 @@ Theorem C10_init_restartable :
 Proof. exact init_restartable_src. Qed.
 Print Assumptions C10_init_restartable.
 
+(* ... and for ANY number of interrupted attempts (each oci.New cut at an arbitrary point, the next
+   one started on whatever was left, leftover temporaries included): the directory never makes
+   oci.New fail, and the first attempt that runs to completion leaves a valid oci-layout, an
+   index.json without manifests, blobs/ and no blob. *)
+Theorem C10_init_restartable_many :
+  forall (shuffle : nat -> list entry -> list entry),
+    (forall c l e, In e (shuffle c l) <-> In e l) ->
+    forall (ks : list nat),
+      let fs := fst (init_attempts shuffle src_inplace src_layout_inplace ks empty_fs 0) in
+      let c := snd (init_attempts shuffle src_inplace src_layout_inplace ks empty_fs 0) in
+      let fs' := apply (new_steps shuffle src_inplace src_layout_inplace fs c) fs in
+      new_okb fs = true /\
+      files fs' FLayout = Some (mkFile [ALayout] false) /\
+      files fs' FIndex = Some (mkFile [AIndex []] false) /\
+      (forall d, files fs' (FBlob d) = None) /\ dirs fs' DBlobs = true.
+Proof. exact init_restartable_many_src. Qed.
+Print Assumptions C10_init_restartable_many.
+
 (* oci-layout written in place (the code before the repair): refuted, cut after open(O_TRUNC) *)
 Theorem C10_init_refuted_layout_inplace :
   forall (shuffle : nat -> list entry -> list entry),
